@@ -108,7 +108,7 @@ fn history_req(frames: &[Vec<u8>], rx: (f64, f64), range: f64) -> String {
 }
 
 /// serde round trip of a frame: Debug text and df equal
-fn serde_frame(b: &[u8]) -> Option<String> {
+pub fn serde_frame(b: &[u8]) -> Option<String> {
     let f = Frame::from_bytes(b).ok()?;
     let js = match serde_json::to_string(&f) {
         Ok(j) => j,
@@ -179,6 +179,18 @@ pub fn replay_c20(v: &Value) -> Vec<Failure> {
                 }
             }
         }
+        Some("reader_nostd") => {
+            let Some(b) = v.get("hex").and_then(|h| h.as_str()).and_then(bits::unhex) else { return out };
+            let max = v["max"].as_u64().unwrap_or(1);
+            let ints: Vec<String> = v["interrupts"].as_array().map(|a| a.iter().filter_map(|x| x.as_u64()).map(|x| x.to_string()).collect()).unwrap_or_default();
+            let mine = transcript::frame_transcript(&b, &mut None);
+            let r = w.ask(&[format!("RD {max} {} {}", if ints.is_empty() { "-".to_string() } else { ints.join(",") }, bits::hex(&b))]);
+            let theirs = r.first().cloned().unwrap_or_default();
+            let same = if mine == "Err" { theirs == "Err" } else { !theirs.is_empty() && theirs != "Err" && mine.starts_with(norm(&theirs)) };
+            if !same {
+                out.push(Failure { sig: "C20/reader_differs".into(), msg: format!("std build: `{}`; alloc-only build through the interrupted reader: `{}`", short_s(&mine), short_s(&theirs)), replay: v.clone() });
+            }
+        }
         Some("frame") => {
             let Some(b) = v.get("hex").and_then(|h| h.as_str()).and_then(bits::unhex) else { return out };
             let a = transcript::frame_transcript(&b, &mut None);
@@ -206,6 +218,11 @@ pub fn replay_c20(v: &Value) -> Vec<Failure> {
         }
     }
     out
+}
+
+fn short_s(s: &str) -> String {
+    let t: String = s.chars().take(260).collect();
+    t.replace('\n', " | ")
 }
 
 fn norm(s: &str) -> &str {
@@ -254,11 +271,42 @@ pub fn run_c20(ctx: &Ctx) -> ! {
             let mut prev = None;
             let mut reqs = vec!["R".to_string()];
             reqs.extend(cases.iter().map(|b| format!("F {}", bits::hex(b))));
+            // ... and the same buffers through the alloc-only build's reader path: fragments of
+            // 1, 2, 5 or 14 bytes and a transient `Interrupted` at one or two of the first 12
+            // read calls (deku's I/O layer retries those in every build)
+            let sched = |i: usize, b: &[u8]| -> (usize, Vec<usize>) {
+                let h = b.iter().fold(i as u64 * 0x9e37_79b9, |a, x| a.wrapping_mul(31).wrapping_add(*x as u64));
+                let max = [1usize, 2, 5, 14][(h % 4) as usize];
+                let k = ((h >> 3) % 12) as usize;
+                let ints = match (h >> 8) % 4 {
+                    0 => vec![],
+                    1 | 2 => vec![k],
+                    _ => vec![k, k + 1 + ((h >> 12) % 3) as usize],
+                };
+                (max, ints)
+            };
+            reqs.extend(cases.iter().enumerate().map(|(i, b)| {
+                let (max, ints) = sched(i, b);
+                let l = if ints.is_empty() { "-".to_string() } else { ints.iter().map(|x| x.to_string()).collect::<Vec<_>>().join(",") };
+                format!("RD {max} {l} {}", bits::hex(b))
+            }));
             let answers = worker.ask(&reqs);
             for (i, b) in cases.iter().enumerate() {
                 st.eval();
                 let mine = transcript::frame_transcript(b, &mut prev);
                 let theirs = &answers[i + 1];
+                let theirs_rd = answers.get(1 + cases.len() + i).cloned().unwrap_or_default();
+                let same_rd = if mine == "Err" { theirs_rd == "Err" } else { !theirs_rd.is_empty() && theirs_rd != "Err" && mine.starts_with(norm(&theirs_rd)) };
+                if !same_rd {
+                    let (max, ints) = sched(i, b);
+                    st.fail(Failure {
+                        sig: "C20/reader_differs".into(),
+                        msg: format!("the std build decodes {} to `{}`; the alloc-only build, reading it in fragments of {max} byte(s) with `Interrupted` at read call(s) {ints:?}, gives `{}`", bits::hex(b), short_s(&mine), short_s(&theirs_rd)),
+                        replay: json!({"kind": "reader_nostd", "hex": bits::hex(b), "max": max, "interrupts": ints}),
+                    });
+                } else if !sched(i, b).1.is_empty() {
+                    st.class("alloc-only reader with an interrupted read");
+                }
                 if mine != "Err" {
                     st.nontrivial(b);
                     st.class("accepted frame");
